@@ -11,7 +11,7 @@
   'bound':'pool of 4 / 5 slots, any forest', 'claims':'Slot::removeChild(ap) takes ap out of its parent\'s child chain and clears ap\'s sibling link; with attachTo(NULL) the forest predicate holds again and every other child keeps its place'}@*/
 /*@unit {'name':'c04_attach_to', 'props':['C04','C02'], 'entry':'h_attach', 'kind':'bounded', 'defines_quick':['NSLOTS=3','ATTACH'], 'defines_thorough':['NSLOTS=4','ATTACH'], 'unwind_quick':6, 'unwind_thorough':7,
   'bound':'pool of 3 / 4 slots, any forest without base-chain links, any target slot', 'claims':'the gr_slatAttTo case of Slot::setAttr keeps the forest: it refuses self/parent/copied targets and targets below this slot (no cycle), detaches from the old parent first, and the slot ends up exactly once in the new parent\'s chain'}@*/
-/*@unit {'name':'c04_free_slot', 'props':['C04','C03'], 'entry':'h_free', 'kind':'bounded', 'defines_quick':['NSLOTS=3','FREESLOT'], 'defines_thorough':['NSLOTS=3','FREESLOT'], 'unwind_quick':6, 'unwind_thorough':6,
+/*@unit {'name':'c04_free_slot', 'props':['C04','C03','C06'], 'entry':'h_free', 'kind':'bounded', 'defines_quick':['NSLOTS=3','FREESLOT'], 'defines_thorough':['NSLOTS=3','FREESLOT'], 'unwind_quick':6, 'unwind_thorough':6,
   'bound':'pool of 3 slots (4 exhausts 12 GB in the SAT back end), any forest', 'claims':'Segment::freeSlot detaches the slot from its parent and all its children from it (forest predicate holds over the remaining slots, nothing names the freed slot), moves first/last off it, resets it and pushes it on the free list'}@*/
 /*@unit {'name':'c04_put_copy', 'props':['C04','C03'], 'entry':'h_put_copy', 'kind':'bounded', 'defines_quick':['NSLOTS=3','PUTCOPY'], 'defines_thorough':['NSLOTS=4','PUTCOPY'], 'unwind_quick':6, 'unwind_thorough':7,
   'bound':'pool of 3 / 4 slots, any forest', 'claims':'the put_copy opcode never leaves a slot whose children name it while its child chain is gone: it dies when the overwritten slot is attached or has children; otherwise the forest predicate is preserved and the list links of the overwritten slot are kept'}@*/
@@ -208,7 +208,9 @@ void h_attach(void)
     uint16 idx = (uint16)value;
     Slot *other = (idx < sm.m_size) ? sm.m_slot_map[idx + 1] : (Slot *)0;
     bool would_cycle = other && is_below(s, other);
+    bool other_is_copy = other && Slot_isCopied_0(other);       /* a TEMP_COPY slot: not a slot of the segment, freed when the rule ends */
     Slot_setAttTo(s, sub, value, &sm);
+    if (other_is_copy) __CPROVER_assert(s->m_parent == old_parent, "setAttr(attTo): a temporary copy is never taken as parent (attachment chains only visit slots of the segment)");
     __CPROVER_assert(wf_forest(live), "setAttr(attTo): the forest predicate holds afterwards (no cycle, chains consistent)");
     __CPROVER_assert(bases_unlinked(live), "setAttr(attTo): a detached slot carries no stale sibling link");
     __CPROVER_assert(s->m_parent == old_parent || s->m_parent == other || s->m_parent == (Slot *)0, "setAttr(attTo): the parent is the old one, the requested one, or none");
